@@ -2009,3 +2009,31 @@ mod tests {
     assert!(reader.matched_writer(writer_guid).is_none());
   }
 }
+
+// Verification hooks (C02): read-only views of one writer proxy and its fragment assembler.
+#[cfg(rustdds_verif)]
+impl Reader {
+  pub(crate) fn verif_c02_writer_proxy(&self, writer: GUID) -> Option<&RtpsWriterProxy> {
+    self.matched_writers.get(&writer)
+  }
+  pub(crate) fn verif_c02_assembly_buffers(&self, writer: GUID) -> Vec<(i64, Vec<bool>)> {
+    self
+      .fragment_assemblers
+      .get(&writer)
+      .map(|fa| fa.verif_c02_buffers())
+      .unwrap_or_default()
+  }
+}
+
+// Verification hook (C02): run the fragment garbage collection as if every assembly buffer had
+// timed out (FragmentAssembler::garbage_collect_before with a limit in the future).
+#[cfg(rustdds_verif)]
+impl Reader {
+  pub(crate) fn verif_c02_gc_fragments(&mut self) {
+    let expire_before = Timestamp::now() + Duration::from_secs(3600);
+    self
+      .fragment_assemblers
+      .iter_mut()
+      .for_each(|(_writer, fa)| fa.garbage_collect_before(expire_before));
+  }
+}
